@@ -55,6 +55,9 @@ def cases(tier):
             for re in ('lam', 'trans', 'turb'):
                 for wall, gf in (('none', None), ('flow', 0.6)):
                     out.append(dict(base, design=d, core=7, re=re, wall=wall, gapfrac=gf))
+        for du in ('3', '3r'):
+            for re in ('lam', 'turb'):
+                out.append(dict(base, ducts=du, re=re, wall='none'))
         for ca in (True,):
             for du in ('1', '2f'):
                 for re in ('vlow', 'lam'):
@@ -76,7 +79,7 @@ def cases(tier):
     else:
         for d in ('d2', 'd3', 'd4', 'b3', 'd5'):
             fams = c01.FAMS_BARE if d == 'b3' else c01.FAMS_WIRE
-            for du in ('1', '2f', '2s', '2w', '3'):
+            for du in ('1', '2f', '2s', '2w', '3', '3r'):
                 for f in fams:
                     for re in ('vlow', 'lam', 'trans', 'turb'):
                         for wall in ('none', 'flow', 'no_flow', 'duct_average'):
